@@ -119,7 +119,7 @@ func fsmPairedExplore(c *Ctx, n, t int, maxStates int) (states, pairs int) {
 	}
 	var alphabet []typed
 	for _, e := range evs {
-		if e.Variant == "empty" {
+		if e.Variant == "empty" || e.Variant == "othercontent" {
 			continue
 		}
 		req, err := types.FSMRequestFromMessage(e.Msg)
@@ -170,6 +170,8 @@ func fsmPairedExplore(c *Ctx, n, t int, maxStates int) (states, pairs int) {
 		}
 		return p
 	}
+	longPairs := 0
+	defer func() { c.Add("long_lived_vs_restored_comparisons", longPairs) }()
 	for len(queue) > 0 {
 		s := queue[0]
 		queue = queue[1:]
@@ -201,6 +203,43 @@ func fsmPairedExplore(c *Ctx, n, t int, maxStates int) (states, pairs int) {
 								what += " responses differ: " + oracle.FirstDiff(outA.Data, outB.Data)
 							}
 							c.Violate("C19/live-and-restored-differ", what, map[string]interface{}{"n": n, "t": t, "path": path(s), "event": e.label})
+						}
+					}
+				}
+			}
+			// long-lived continuation: ONE instance lives through the whole path since the last hand-over (a node
+			// that was never restarted and kept its machine), then gets the event. Done for every event the
+			// restored instance accepts and for a fixed eighth of the others.
+			if s.pred != nil && !handOver[s.name] && (outB.OK || oracle.HashN(s.name+"|"+e.label, 8) == 0) {
+				var chain []*st
+				x := s
+				for x.pred != nil && !handOver[x.name] {
+					chain = append([]*st{x}, chain...)
+					x = x.pred
+				}
+				if len(chain) > 1 {
+					instL, err := safeFromDump(x.dump)
+					okPath := err == nil
+					for _, y := range chain {
+						if !okPath {
+							break
+						}
+						if pre := safeDo(instL, y.via.event, y.via.req); !pre.OK {
+							okPath = false
+							c.Violate("C19/live-and-restored-differ", fmt.Sprintf("the path to %s is accepted step by step on restored instances but step %s is refused on one long-lived instance", s.name, y.via.label), map[string]interface{}{"n": n, "t": t, "path": path(s)})
+						}
+					}
+					if okPath {
+						outL := safeDo(instL, e.event, e.req)
+						longPairs++
+						if outL.OK != outB.OK || outL.State != outB.State || outL.Data != outB.Data || canonDump(outL.Dump) != canonDump(outB.Dump) {
+							what := fmt.Sprintf("in %s event %s: long-lived instance (%d steps in memory) (ok=%v,state=%s) vs restored(ok=%v,state=%s)", s.name, e.label, len(chain), outL.OK, outL.State, outB.OK, outB.State)
+							if outL.OK == outB.OK && outL.State == outB.State && outL.Data == outB.Data {
+								what += " dumps differ: " + oracle.FirstDiff(outL.Dump, outB.Dump)
+							} else if outL.Data != outB.Data {
+								what += " responses differ: " + oracle.FirstDiff(outL.Data, outB.Data)
+							}
+							c.Violate("C19/live-and-restored-differ", what, map[string]interface{}{"n": n, "t": t, "path": path(s), "event": e.label, "steps_in_memory": len(chain)})
 						}
 					}
 				}
